@@ -670,6 +670,21 @@ def check_tree(case, pts):
                         list(map(int, pl)), list(map(int, app))))
     except Exception as e:
         out.append(("predict_leaves:raises", "predict_leaves raises %s" % type(e).__name__, inp, str(e)[:200], "apply(X)"))
+    # "all points": also many at once - row counts around the block sizes a vectorised implementation would use
+    if len(pts) > 0:
+        m_tall = (1025, 2049, 1024, 3073, 1023, 4097)[(len(pts) + int(tr.node_count)) % 6]
+        Xt = Xq[numpy.arange(m_tall) % Xq.shape[0]]
+        try:
+            plt_, appt = predict_leaves(m, Xt), m.apply(Xt)
+            neq = [i for i in range(m_tall) if int(plt_[i]) != int(appt[i])] if len(plt_) == m_tall else [-1]
+            if neq:
+                out.append(("predict_leaves:differs-from-apply:tall-batch", "predict_leaves(model, X) != model.apply(X) on a "
+                            "batch of %d rows (the given points repeated; first at row %d)" % (m_tall, neq[0]),
+                            dict(inp, rows=m_tall), [int(plt_[i]) for i in neq[:5]] if neq[0] >= 0 else len(plt_),
+                            [int(appt[i]) for i in neq[:5]] if neq[0] >= 0 else m_tall))
+        except Exception as e:  # noqa: BLE001
+            out.append(("predict_leaves:raises", "predict_leaves raises %s on %d rows" % (type(e).__name__, m_tall), inp,
+                        str(e)[:200], "apply(X)"))
     # leaves: nodes without children; scikit-learn counts them in n_leaves; every routed point ends in one
     true_leaves = [i for i in range(tr.node_count) if tr.children_left[i] == -1 and tr.children_right[i] == -1]
     try:
